@@ -34,9 +34,12 @@ def make_case(rnd, big=False):
     c.io_nodes.insert(rnd.randint(0, len(c.io_nodes)), si)
     Line(c, si, Node(c, 'si'))
     ffs = []
+    # flip-flop names: plain, ending in the letters of the '.SI' pin suffix, starting with 'SI', mixed case
+    pool = rnd.choice([['r%d'], ['r%d', 'ACK%dS', 'PH%dI', 'q%dSI', 'STATUS%d', 'SIG%d', 'SIZE_%d_', 'si_%d', 'Reg%dIS']])
     for k in range(nff):
-        ff = Node(c, 'r%d' % k, 'DFF')
-        f = Node(c, 'r%d' % k)
+        nm = rnd.choice(pool) % k
+        ff = Node(c, nm, 'DFF')
+        f = Node(c, nm)
         Line(c, ff, f)
         ffs.append(ff)
         if rnd.random() < 0.4:      # some unrelated logic in between so that node order is scrambled
